@@ -38,6 +38,18 @@ def catches (cls : String) (e : Exc) : Bool :=
    | .exception n => cls == "Exception" || cls == n
    | .base n => cls == n)
 
+/-- the classes `log.Formatter.formatException` re-raises instead of formatting: every `except`
+clause that *logs* what it caught (the firewall, the bare `except`s of `feedMsg`, `drivers.run`)
+lets such an exception through again -/
+def notExceptionClass (n : String) : Bool :=
+  n == "KeyboardInterrupt" || n == "SystemExit" || n == "GeneratorExit" || n == "BaseException"
+
+/-- (`.exception n` is an instance of a subclass of `Exception` named `n`: the builtin classes that
+are not below `Exception` cannot occur under that constructor) -/
+def deadly : Exc → Bool
+  | .base n => Gen.deadlyExceptions.contains n
+  | .exception n => Gen.deadlyExceptions.contains n && !notExceptionClass n
+
 /-! ### `log.firewall(f, errorHandler)` with `log.testing == False` -/
 
 /-- `catchF` / `catchH`: the classes named by the two `except` clauses of the wrapper;
@@ -48,10 +60,11 @@ def firewallWith (catchF catchH : String) {α : Type} (f : Outcome α) (handler 
   | .ret a => .ret (some a)
   | .raise e =>
     if catches catchF e then
-      match handler with
-      | none => .ret none
-      | some (.ret a) => .ret (some a)
-      | some (.raise e') => if catches catchH e' then .ret none else .raise e'
+      if deadly e then .raise e                          -- `logException` re-raises it
+      else match handler with
+        | none => .ret none
+        | some (.ret a) => .ret (some a)
+        | some (.raise e') => if catches catchH e' then (if deadly e' then .raise e' else .ret none) else .raise e'
     else .raise e
 
 def firewall {α : Type} (f : Outcome α) (handler : Option (Outcome α)) : Outcome (Option α) :=
@@ -119,7 +132,7 @@ def protect (what : String) (o : Outcome Unit) : Outcome Unit :=
   | .ret a => .ret a
   | .raise e =>
     match regionCatch what with
-    | some cls => if catches cls e then .ret () else .raise e
+    | some cls => if catches cls e then (if deadly e then .raise e else .ret ()) else .raise e
     | none => .raise e
 
 def optExc : Option Exc → Outcome Unit
@@ -340,7 +353,7 @@ removed; `none` = the exception is not even caught there and ends the main loop 
 def driversRun (o : Outcome Unit) : Option Bool :=     -- some true = driver stays, some false = removed
   match o with
   | .ret _ => some true
-  | .raise e => if catches Gen.driversRunCatch e then some false else none
+  | .raise e => if catches Gen.driversRunCatch e then (if deadly e then none else some false) else none
 
 /-- the real Irc answers PING whatever the letter case of the command (`dispatchCommand` upper-cases
 it); `ircmsgs.pong` asserts the payload is a valid argument -/
